@@ -30,6 +30,10 @@ func (a unixAddr) String() string  { return string(a) }
 
 var _ net.Addr = unixAddr("")
 
+// Prebuilt is the object that the pseudo-kind "prebuilt" stands for
+// (used to build a wrapper around an existing object).
+var Prebuilt error
+
 // Built is a built error together with the object built for every
 // spec node.
 type Built struct {
@@ -80,6 +84,8 @@ func (b *Built) build(s *Spec) (res error) {
 	}
 	S := func(i int) string { return s.S[i] }
 	switch s.K {
+	case "prebuilt":
+		return Prebuilt
 	// leaves
 	case "new":
 		return errors.New(S(0))
